@@ -10,6 +10,7 @@ Oracle: brute-force statement of the property on the implementation's output (pa
 only-tid-changed by deep comparison with the input dicts, nothing lost/duplicated, lane injectivity, and
 "no exception when the nesting depth is within the tool's limit").
 """
+import contextlib
 import copy
 import glob
 import itertools
@@ -72,8 +73,25 @@ CORPUS = os.path.join(coqrun.VERIF, "corpus", "C04")
 # ---------------------------------------------------------------- cases
 # a case: {"mode", "ms", "presort", "scale", "events": [[isx, pid, tid, ts, dur, uid], ...]} on an integer grid;
 # the implementation sees ts*scale, dur*scale (scale a power of two, so every float operation is exact)
-def mk_case(mode, ms, presort, scale, events):
-    return {"mode": mode, "ms": ms, "presort": bool(presort), "scale": scale, "events": [list(e) for e in events]}
+# "ll" (optional): the log level (aiu_trace_analyzer.logger.loglevel, what -D sets) the stages run at; the result may
+# not depend on it.  Absent = -1 (below ERROR: nothing is printed).  The model has no such parameter.
+LOGLEVELS = (0, 1, 2, 3, 4)
+
+
+def mk_case(mode, ms, presort, scale, events, ll=None):
+    c = {"mode": mode, "ms": ms, "presort": bool(presort), "scale": scale, "events": [list(e) for e in events]}
+    if ll is not None:
+        c["ll"] = ll
+    return c
+
+
+class _Null:
+    """stdout sink for the runs at verbose log levels (the tool logs with print)"""
+    def write(self, s):
+        return len(s)
+
+    def flush(self):
+        pass
 
 
 def py_events(case):
@@ -106,13 +124,22 @@ def project(e, sc):
 def run_impl(case):
     """returns {"result": [projected events] | enc.Err, "table": [[pid, [[src, next], ...]], ...], "raw": [dicts]}"""
     import aiu_trace_analyzer.logger as aiulog
+    mode, ms, sc = case["mode"], case["ms"], case["scale"]
+    table, raw = [], []
+    aiulog.loglevel = case.get("ll", -1)
+    try:
+        with contextlib.redirect_stdout(_Null()):
+            result = _drive(case, mode, ms, sc, table, raw)
+    finally:
+        aiulog.loglevel = -1
+    return {"result": result, "table": table, "raw": raw}
+
+
+def _drive(case, mode, ms, sc, table, raw):
     from aiu_trace_analyzer.core.acelyzer import Acelyzer
     from aiu_trace_analyzer.pipeline.sort import EventSortingContext, sort_events
     from aiu_trace_analyzer.pipeline.overlap import (OverlapDetectionContext, detect_partial_overlap_tids,
                                                      detect_partial_overlap_events)
-    aiulog.loglevel = -1
-    mode, ms, sc = case["mode"], case["ms"], case["scale"]
-    table, raw = [], []
     octx = None
     try:
         events = py_events(case)
@@ -149,7 +176,7 @@ def run_impl(case):
                                               if isinstance(v, int))])
             except Exception:  # noqa: BLE001
                 pass
-    return {"result": result, "table": table, "raw": raw}
+    return result
 
 
 # ---------------------------------------------------------------- oracle (independent of the Coq model)
@@ -166,6 +193,15 @@ def max_depth(slices):
     for lo, hi in zip(pts, pts[1:]):
         best = max(best, sum(1 for s, e in slices if s <= lo and hi <= e))
     return best
+
+
+def crossing(slices):
+    """the slices of a lane family whose start lies inside another slice and whose end lies beyond that slice's end:
+    only these can ever be asked to leave the lane.  A slice that reaches the k-th extra lane started inside k-1
+    such slices (one per extra lane it left), so 'depth of this sub-family <= number of extra lanes' means that the
+    extra lanes suffice - however deep the proper nest around them is."""
+    return [(s, e) for i, (s, e) in enumerate(slices)
+            if any(j != i and s2 <= s < e2 < e for j, (s2, e2) in enumerate(slices))]
 
 
 def lane_sorted_by_ts(case, with_dur=False):
@@ -198,13 +234,15 @@ def oracle(case, obs):
         for _, pid, tid, ts, dur, _ in xin:
             lanes.setdefault((pid, tid), []).append((ts, ts + dur))
         limit = max(ms, 1)
-        within = all(max_depth(v) <= (1 if k[1] == -1 else limit + 1) for k, v in lanes.items())
+        within = all(max_depth(v) <= (1 if k[1] == -1 else limit + 1) or
+                     (k[1] != -1 and max_depth(crossing(v)) <= limit) for k, v in lanes.items())
         ordered = case["presort"] or lane_sorted_by_ts(case)
         nonneg = all(e[3] >= 0 for e in xin)
         if mode == "DROP" and ordered and nonneg:
             fail("unexpected_exception", "no exception in drop mode on per-lane ordered input", tag, exception=tag)
         elif mode == "TID" and ordered and nonneg and within:
-            fail("unexpected_exception", f"no exception: nesting depth per lane <= {limit}+1", tag, exception=tag)
+            fail("unexpected_exception", f"no exception: nesting depth per lane <= {limit}+1, or at most {limit} "
+                 "lane-leaving slices over any point", tag, exception=tag)
         return fails
 
     out = obs["raw"]
@@ -342,10 +380,78 @@ def gen_exhaustive(ctx):
                     continue
                 evs = [[True, p, t, s, e - s, i] for i, (p, t, s, e) in enumerate(fam)]
                 cases.append(mk_case("TID", 1, True, 1.0, evs))
+    # the log level is an option the result may not depend on: the families above are spread over -D 0..4 ...
+    for i, c in enumerate(cases):
+        c["ll"] = LOGLEVELS[i % len(LOGLEVELS)]
+    # ... and every one-lane family of <= 3 intervals on 0..4 (thorough: <= 4 on 0..5) runs at every level, both modes
+    T3, n3 = ctx.pick((4, 3), (5, 4))
+    items = [(3, s, e) for s, e in intervals(T3)]
+    for n in range(1, n3 + 1):
+        for fam in itertools.combinations_with_replacement(items, n):
+            evs = [[True, 0, t, s, e - s, i] for i, (t, s, e) in enumerate(fam)]
+            for ll in LOGLEVELS:
+                cases.append(mk_case("TID", 2, True, 1.0, evs, ll=ll))
+                cases.append(mk_case("DROP", 5, True, 1.0, evs, ll=ll))
     return cases
 
 
+def deep_nest(r, lo=18, hi=40):
+    """a family of lo..hi slices of which each contains the next (occasional ties in start, end or both), i.e. a
+    lane whose nesting depth is far beyond the number of overflow lanes - the tool sets no limit on the depth of a
+    proper nest - followed by later slices that cross the end of ONE chosen level (mostly an outer one), touch the
+    end of the level below it, or sit in the gap between two ends.  Returns [(s, e)] in ts asc / dur desc order."""
+    D = r.randint(lo, hi)
+    steps = lambda: r.choice([0, 1, 1, 1, 2, 3])                               # noqa: E731
+    starts, x = [], 0
+    for _ in range(D):
+        starts.append(x)
+        x += steps()
+    ends, x = [], starts[-1] + r.randint(1, 4)
+    for _ in range(D):
+        ends.append(x)
+        x += steps()
+    ends.reverse()                                                             # ends[0] = outermost
+    fam = list(zip(starts, ends))
+    late = []
+    for _ in range(r.randint(1, 4)):
+        j = r.choice([0, 0, 0, 1, 1, 2, 3, r.randrange(D)])
+        j = min(j, D - 1)
+        inner_end = ends[j + 1] if j + 1 < D else starts[-1] + 1
+        s = r.randint(inner_end, ends[j] - 1) if inner_end < ends[j] else ends[j] - 1
+        kind = r.random()
+        if kind < 0.7:                                   # crosses the end of level j (and maybe of levels outside it)
+            late.append((s, ends[j] + r.randint(1, 3)))
+        elif kind < 0.85:                                # nested in level j, after (or touching) level j+1
+            late.append((s, r.randint(s, ends[j])))
+        else:                                            # after everything
+            late.append((ends[0] + r.randint(0, 2), ends[0] + r.randint(2, 5)))
+    late.sort(key=lambda iv: (iv[0], iv[0] - iv[1]))
+    return fam + late
+
+
+def gen_deep_case(r):
+    mode = "TID" if r.random() < 0.6 else "DROP"
+    ms = r.choice([5, 5, 5, 3, 1])
+    presort = r.random() < 0.85
+    pid = r.choice([0, 1, 7])
+    tid = r.randint(0, 5)
+    evs = [[True, pid, tid, s, e - s, 0] for s, e in deep_nest(r)]
+    T = max(e[3] + e[4] for e in evs)
+    for _ in range(r.randint(0, 6)):                     # neighbours: the next tid of the pid, another pid
+        s = r.randint(0, T)
+        evs.append([True, *r.choice([(pid, tid + 1), (pid, tid + 1), (pid + 1, tid)]), s, r.randint(1, max(1, T - s)), 0])
+    if presort:
+        r.shuffle(evs)                                   # the sort stage has to bring the lanes into order
+    else:
+        evs.sort(key=lambda e: (e[3], -e[4]))
+    for i, e in enumerate(evs):
+        e[5] = i
+    return mk_case(mode, ms, presort, r.choice([1.0, 1.0, 0.5, 0.0625]), evs, ll=r.choice(LOGLEVELS))
+
+
 def gen_random_case(r, big=False):
+    if r.random() < 0.06:
+        return gen_deep_case(r)
     mode = "TID" if r.random() < 0.75 else "DROP"
     ms = r.choice([5, 5, 5, 5, 3, 2, 1, 0])
     presort = r.random() < 0.8
@@ -389,7 +495,7 @@ def gen_random_case(r, big=False):
         evs.sort(key=lambda e: (e[3], -e[4]))
         for i, e in enumerate(evs):
             e[5] = i
-    return mk_case(mode, ms, presort, scale, evs)
+    return mk_case(mode, ms, presort, scale, evs, ll=r.choice(LOGLEVELS))
 
 
 def load_corpus():
@@ -398,7 +504,10 @@ def load_corpus():
     for fn in sorted(glob.glob(os.path.join(CORPUS, "*.json"))):
         d = json.load(open(fn))
         for c in d.get("cases", [d] if "events" in d else []):
-            k = mk_case(c["mode"], c.get("ms", 5), c.get("presort", True), c.get("scale", 1.0), c["events"])
+            k = mk_case(c["mode"], c.get("ms", 5), c.get("presort", True), c.get("scale", 1.0), c["events"],
+                        ll=c.get("ll"))
+            if c.get("e2e") and "D" in c:
+                k["D"] = c["D"]
             (e2e if c.get("e2e") else kern).append(k)
     return kern, e2e
 
@@ -452,10 +561,17 @@ def run_e2e(case, work):
             e["cat"] = "cpu_op"
         payload = {"deviceProperties": [{"id": 0, "name": "AIU", "type": "aiu"}], "traceEvents": evs}
     try:
-        ace = Acelyzer(["-i", "api://jsonbuffer", "-o", outp, "-O", case["mode"].lower(), "-D", "0"],
-                       in_data=json.dumps(payload).encode())
-        aiulog.loglevel = -1
-        rc = ace.run()
+        # "D" (optional): the -D log level of the run (0..4); absent = -D 0 and logging silenced altogether
+        with contextlib.redirect_stdout(_Null()):
+            try:
+                ace = Acelyzer(["-i", "api://jsonbuffer", "-o", outp, "-O", case["mode"].lower(),
+                                "-D", str(case.get("D", 0))], in_data=json.dumps(payload).encode())
+                if "D" not in case:
+                    aiulog.loglevel = -1
+                rc = ace.run()
+                del ace
+            finally:
+                aiulog.loglevel = -1
         if rc != 0:
             return {"result": enc.Err(f"rc{rc}"), "raw": []}
         data = json.load(open(outp))
@@ -477,8 +593,9 @@ def oracle_e2e(case, obs):
         fails.append({"input": dict(case, e2e=True), "expected": expected, "observed": observed, "signature": sig})
     slices = [(e[3], e[3] + e[4]) for e in case["events"]]
     if isinstance(obs["result"], enc.Err):
-        if mode == "DROP" or max_depth(slices) <= 6:
-            fail("unexpected_exception", "exit 0: nesting depth <= 6", obs["result"].tag, exception=obs["result"].tag)
+        if mode == "DROP" or max_depth(slices) <= 6 or max_depth(crossing(slices)) <= 5:
+            fail("unexpected_exception", "exit 0: nesting depth <= 6, or at most 5 lane-leaving slices over any point",
+                 obs["result"].tag, exception=obs["result"].tag)
         return fails
     by_lane = {}
     for e in obs["raw"]:
@@ -518,6 +635,12 @@ def gen_e2e_case(r):
         s = r.randint(0, T)
         d = T + r.randint(0, 2) if deep else r.randint(1, max(1, T - s))   # zero-length host slices are removed
         evs.append([True, 0, r.choice([1, 2, 3]), s, d, i])                  # by an earlier stage of the pipeline
+    if r.random() < 0.12:
+        # a deep proper nest (all host slices share one lane) and later slices crossing one of its ends
+        evs = [[True, 0, r.choice([1, 1, 1, 2]), s, max(e - s, 1), 0] for s, e in deep_nest(r, 18, 32)]
+        r.shuffle(evs)
+        for i, e in enumerate(evs):
+            e[5] = i
     # (1/16 us = 0.0625: exact at the 0.1 ns the tool rounds to internally, but off the 1 ns grid - nothing may round slice
     # boundaries on the way to the export)
     case = mk_case(mode, 5, True, r.choice([1.0, 0.5, 0.25, 0.0625]), evs)
@@ -526,6 +649,7 @@ def gen_e2e_case(r):
     # every eighth case: the same slices as a torch profile with string thread ids (oracle only, no Coq comparison:
     # the lanes are hash values there)
     case["torch"] = (not case["annot"]) and r.random() < 0.125
+    case["D"] = r.choice(LOGLEVELS)      # the log level is an option the exported lanes may not depend on
     return case
 
 
